@@ -25,6 +25,11 @@ def exhaustive(tier):
     return True   # over the factor triples
 
 
+CANCELLING_CELLS = [[[6, 6, 0], [-6, 6, 0], [0, 0, 9]], [[7, 0, 0], [0, 8, 0], [-5, 0, 5]], [[4, 0, 0], [-8, 4, 0], [0, 0, 6]], [[5, 0, 0], [0, 6, 0], [0, -7, 7]],
+                    [[3, -3, 0], [3, 3, 1], [0, 0, 8]], [[4, 0, 0], [-2, 5, 0], [-2, -5, 7]], [[6, -2, -4], [0, 7, 0], [1, 0, 8]], [[5, 0, 0], [-5, 5, 0], [0, -5, 5]],
+                    [[8, 0, 0], [-4, 4, 0], [-4, -4, 8]], [[0, 6, 0], [-6, 0, 0], [0, 0, 7]]]
+
+
 def cases(tier, seed):
     rng = np.random.default_rng([12, seed])
     F, per = (3, 4) if tier == "quick" else (5, 24)
@@ -38,7 +43,7 @@ def cases(tier, seed):
             kc += 0 if free else 1
             for dims in itertools.product(range(1, F + 1), repeat=3):
                 out.append({"cell": cellkind, "s": s, "dims": list(dims), "n": 1 if j == 1 else 1 + (s + j) % 7, "impropers": j % 2 == 0, "origin": j % 2 == 1,
-                            "combo": combo})
+                            "combo": combo, "cancel": (ci * per + j) % 3 == 2})
     # large factors along one axis (a rod or a slab of some hundred images) of structures of one to three atoms
     for j, dims in enumerate([(49, 1, 1), (1, 98, 1), (1, 1, 103), (107, 1, 2), (2, 196, 1), (1, 3, 197), (64, 1, 1), (1, 100, 1)] if tier == "quick" else
                              [(f, 1, 1) for f in range(40, 260, 3)] + [(1, f, 1) for f in range(41, 260, 3)] + [(1, 2, f) for f in range(42, 260, 3)]):
@@ -83,6 +88,16 @@ def _run(case, ctx, variant):
         Rm = random_rotation(np.random.default_rng(case["s"] + 1))
         a.cell = np.array(a.cell, float).dot(Rm.T)
         a.positions = np.asarray(a.positions, float).dot(Rm.T)
+    if case.get("cancel") and variant is None:
+        # cells in which lattice offsets cancel exactly: whole-number vectors with negative entries whose components (or some of
+        # them) add up to zero for one vector or for a sum of vectors - a tetragonal cell turned by 45 degrees, a monoclinic cell
+        # with beta = 135 degrees, negative whole-number tilts. Every image is still a different place.
+        cc = CANCELLING_CELLS[(case["s"] // 6) % len(CANCELLING_CELLS)]
+        cc = np.array(cc, float) * [1.0, 1.0, 0.5, 2.0][(case["s"] // 60) % 4]
+        if (case["s"] // 240) % 2:
+            cc = cc[:, [1, 2, 0]]
+        a.cell = cc
+        st.count("structures_in_cells_whose_lattice_offsets_cancel_exactly")
     from vmon.oracle.util import flavour
     st.seen("array_flavour", flavour(a, case["s"] // 3))
     if case["s"] % 5 == 2 and variant is None:
@@ -207,6 +222,8 @@ def requirements(stats, tier):
     need = []
     if stats.get("structures_whose_coordinates_are_held_in_single_precision") < (20 if tier == "quick" else 1000):
         need.append("structures whose coordinates are held in single precision: %d" % stats.get("structures_whose_coordinates_are_held_in_single_precision"))
+    if stats.get("structures_in_cells_whose_lattice_offsets_cancel_exactly") < (100 if tier == "quick" else 3000):
+        need.append("replications in cells whose lattice offsets cancel exactly: %d" % stats.get("structures_in_cells_whose_lattice_offsets_cancel_exactly"))
     if stats.get("structures_with_two_atom_types_of_one_label") < 20:
         need.append("structures with two atom types of one label: %d replications" % stats.get("structures_with_two_atom_types_of_one_label"))
     if stats.get("replications_of_a_rotated_twin_right_after_the_original") < (20 if tier == "quick" else 500):
